@@ -13,19 +13,20 @@ const whyRing = "a ring walk that leaves on cursor != start visits one node: are
 func init() {
 	register(&propDef{
 		id: "C01",
-		explanation: "Decides structural clauses of C01: (table) the predicate deciding whether a closed edge bounds the solution (isContributingClosed) equals, on every cell of the code-derived partition of (fillRule, clipType, polytype, windCount, windCount2), the set-theoretic table the property states; (open-guard) the boundary test of intersectEdges' open branch is the same own-set test; (ring) every ring walk over OutPt/OutPt2/Vertex lists leaves on cursor==start, i.e. visits the whole ring; (live) no call to a sweep/repair mechanism sits in a constant-dead block. Does NOT decide the sweep's geometry: edge ordering, intersection rounding, winding update arithmetic, join/split topology.",
+		explanation: "Decides structural clauses of C01: (table) the predicate deciding whether a closed edge bounds the solution (isContributingClosed) equals, on every cell of the code-derived partition of (fillRule, clipType, polytype, windCount, windCount2), the set-theoretic table the property states; (open-guard) the boundary test of intersectEdges' open branch is the same own-set test; (ring) every ring walk over OutPt/OutPt2/Vertex lists leaves on cursor==start, i.e. visits the whole ring; (order) the sort comparators implement the sweep order (minima bottom-up, intersections bottom-up then left to right); (mirror) intersectEdges decides and updates winding state under Negative exactly as under Positive on the negated state; (live) no call to a sweep/repair mechanism sits in a constant-dead block. Does NOT decide the sweep's geometry: edge ordering, intersection rounding, winding update arithmetic, join/split topology.",
 		notDecided: []string{"active-edge ordering (isValidAelOrder)", "intersection detection and rounding", "winding-count update arithmetic in intersectEdges/setWindCountForClosedPathEdge", "horizontal processing, joins and splits", "doSplitOp's area condition (no in-repo oracle)"},
 		rules: []func(*Ctx){
 			ruleContribClosed("C01.table"),
 			ruleOpenGuard("C01.open-guard"),
 			ruleRing("C01.ring", 25, whyRing),
 			ruleSweepOrder("C01.order"),
+			ruleIntersectMirror("C01.mirror"),
 			ruleDead("C01.live", nil, sweepLive, 60, "these calls are the sweep and its self-intersection/join repair; a constant-dead one silently disables that repair for every input"),
 		},
 	})
 	register(&propDef{
 		id: "C09",
-		explanation: "Decides structural clauses of C09: (table) isContributingOpen equals the property's coverage table (Intersection: inside clip; Union: outside both; Difference: outside clip) on every cell of (fillRule, clipType, windCount, windCount2); (guard) an open edge is cut at a closed edge exactly when that edge bounds its own set. Does NOT decide cut positions or that pieces are sub-polylines.",
+		explanation: "Decides structural clauses of C09: (table) isContributingOpen equals the property's coverage table (Intersection: inside clip; Union: outside both; Difference: outside clip) on every cell of (fillRule, clipType, windCount, windCount2); (guard) an open edge is cut at a closed edge exactly when that edge bounds its own set; (skip) winding scans neither count nor are changed by open edges; (route) open records reach only the open solution; (horz) an open path's terminal horizontal consults the range test before intersecting a further edge. Does NOT decide cut positions or that pieces are sub-polylines.",
 		notDecided: []string{"cut positions (intersection rounding)", "sub-polyline-ness of the pieces", "horizontal open edges in doHorizontal", "Xor for open paths (the property does not constrain it)"},
 		rules: []func(*Ctx){
 			ruleContribOpen("C09.table"),
@@ -112,7 +113,7 @@ func init() {
 	})
 	register(&propDef{
 		id: "C04",
-		explanation: "Decides structural clauses of C04: (once) AddChild is called only from recursiveCheckOwners, under the polypath==nil guard, and its node is stored in outrec.polypath, so each output record is inserted at most once; (same-pipeline) tree polygons are produced by the same cleanCollinear -> buildPath(pts, c.reverseSolution, false, &outrec.path) pipeline as the flat result and outrec.path has no other writer; (hole) IsHole() is true exactly on even non-zero levels and Level() counts .parent links. Does NOT decide containment/nesting correctness (path1InsidePath2, owner heuristics) or innermost-parent choice.",
+		explanation: "Decides structural clauses of C04: (once) AddChild is called only from recursiveCheckOwners, under the polypath==nil guard, and its node is stored in outrec.polypath, so each output record is inserted at most once; (same-pipeline) tree polygons are produced by the same cleanCollinear -> buildPath(pts, c.reverseSolution, false, &outrec.path) pipeline as the flat result and outrec.path has no other writer; (hole) IsHole() is true exactly on even non-zero levels and Level() counts .parent links; (owner) a ring split off by a horizontal join gets its owner by containment (inside the old ring: child; beside it: sibling; around it: rings swapped) and is recorded in the old ring's splits; (bounds) lazily computed OutRec.bounds are read only after checkBounds(record) succeeded; (grow) buildTree/buildPaths re-read len(outrecList) every iteration because clean-up appends records. Does NOT decide containment/nesting correctness (path1InsidePath2, owner heuristics) or innermost-parent choice.",
 		notDecided: []string{"containment and nesting (path1InsidePath2, checkSplitOwner, setOwner heuristics)", "innermost-parent choice", "equality of the polygon SET with the flat result when polygons split", "moveSplits appends loop indices instead of split values (deviation, not demonstrable: 120 000 random tree executions identical to a repaired copy)"},
 		rules:      []func(*Ctx){ruleEmit("C04"), ruleIsHole("C04.hole"), ruleHorzJoinOwner("C04.owner"), ruleLazyBounds("C04.bounds"), ruleGrowingList("C04.grow")},
 	})
@@ -188,8 +189,8 @@ func init() {
 func init() {
 	register(&propDef{
 		id: "C03",
-		explanation: "Decides structural clauses of C03: (panics) the inventory of explicit panics is exactly the reviewed one (the documented precision-range panic, plus four index-error panics whose structural premises — index shape and guards — are re-checked); (make) every make() length/capacity is provably non-negative by interval analysis with dominating-branch refinement; (div) every integer division/remainder has a non-zero constant divisor; (flag) c.succeeded is assigned on every path through executeInternal and read only afterwards; (ring) every ring walk exits on cursor==start (no one-node walks, no walks that cannot terminate on a well-formed ring). Does NOT decide nil-dereference freedom of the linked structures, variable-index safety or termination of invariant-dependent scans.",
-		notDecided: []string{"nil-dereference freedom of AEL/SEL/OutPt links", "variable-index safety (intersectList[j] scan, path[i] in the rectangle scans)", "termination of fixSelfIntersects / doMaxima / processIntersectList scans", "reachability of succeeded=false in addLocalMaxPoly", "memory/time blow-up for absurd radii (Ellipse step count)"},
+		explanation: "Decides structural clauses of C03: (panics) the inventory of explicit panics is exactly the reviewed one (the documented precision-range panic, plus four index-error panics whose structural premises — index shape and guards — are re-checked); (make) every make() length/capacity is provably non-negative by interval analysis with dominating-branch refinement; (div) every integer division/remainder has a non-zero constant divisor; (flag) c.succeeded is assigned on every path through executeInternal and read only afterwards; (index) constant indices into slice parameters are guarded by the function or by every caller, and the variable-index reads that are guarded by `index < len` on the confirmed tree stay guarded on the same index value; (ring) every ring walk exits on cursor==start (no one-node walks, no walks that cannot terminate on a well-formed ring). Does NOT decide nil-dereference freedom of the linked structures, variable-index safety or termination of invariant-dependent scans.",
+		notDecided: []string{"nil-dereference freedom of AEL/SEL/OutPt links", "variable-index safety in general (only reads that were guarded on the confirmed tree are held to stay guarded: C03.index.var; 132 of 201 variable-index reads of slice parameters have no such guard and are not judged)", "termination of fixSelfIntersects / doMaxima / processIntersectList scans", "reachability of succeeded=false in addLocalMaxPoly", "memory/time blow-up for absurd radii (Ellipse step count)"},
 		rules: []func(*Ctx){
 			ruleVarIndex("C03.index.var", map[string]int{
 				// reads guarded on the confirmed tree by `index < len` / `index <= len-1` on the same index value
